@@ -13,6 +13,7 @@ import (
 
 	"verif/internal/cmpx"
 	"verif/internal/gen"
+	"verif/internal/ref"
 	"verif/internal/rig"
 	"verif/internal/wk"
 )
@@ -127,6 +128,16 @@ func c09SameBehaviour(c *wk.Ctx, leg, what string, orig, rebuilt schema.Type, sh
 		if (eo == nil) != (er == nil) {
 			wit["original"] = fmt.Sprint(eo)
 			wit["rebuilt"] = fmt.Sprint(er)
+			if structMapped {
+				// A struct-mapped parent fills in a by-value sub-object the input leaves out (a Go struct field cannot
+				// be absent); the map-based schema rebuilt from the description does not. One finding, whatever the
+				// message of the side that rejects.
+				if d := ref.Denote(shape, p.in, &gen.Env{}); d.V == ref.Unspec && strings.Contains(d.Why, "absent by-value sub-object of a struct-mapped parent") {
+					c.Violation("C09:rebuilt-differs:acceptance:struct-mapped-parent-materialises-absent-by-value-sub-object",
+						fmt.Sprintf("the input leaves out a sub-object that the struct-mapped original holds by value: the original fills it from the defaults below it and %s the input, the map-based schema rebuilt from the description (%s leg) leaves it absent and %s it", acceptWord(eo), leg, acceptWord(er)), wit)
+					return
+				}
+			}
 			c.Violation("C09:rebuilt-differs:acceptance:"+normMsg(firstErr(eo, er)), fmt.Sprintf("original %s the input, the schema rebuilt from its description (%s leg, %s) %s it", acceptWord(eo), leg, what, acceptWord(er)), wit)
 			return
 		}
